@@ -186,4 +186,50 @@ def retRule (s : IState) : Done := returnRule .Return s
 def revertRule (s : IState) : Done :=
   if !enabled s.spec GasCalc.SpecId.BYZANTIUM then .halt .NotActivated [] (adv s) else returnRule .Revert s
 
+/-! ## (d) KECCAK256 and LOG0 … LOG4: one question to the outside, then a continuation
+
+`Outcome.host op k`: the instruction hands `op` to the host (for KECCAK256: to the hash function) and continues with
+`k answer`. -/
+
+def needGasO (s : IState) (c : Nat) (k : IState → Outcome) : Outcome :=
+  if s.gas.remaining < c then .halt .OutOfGas [] s else k (charge s c)
+
+def memAccessO (s : IState) (off len : Nat) (k : IState → Outcome) : Outcome :=
+  if s.gas.remaining < touchCost (memOf s) off len then .halt .MemoryOOG [] s
+  else k (setMem (charge s (touchCost (memOf s) off len)) (touch (memOf s) off len))
+
+/-- KECCAK256: δ = 2, α = 1, `G_keccak256 + G_keccak256word · ⌈len / 32⌉` + expansion to `off + len`; the hash of
+`μ[off .. off + len)` replaces the operands; the empty string is hashed without asking (its hash is a constant) and
+without touching memory. The length stays on the stack until the result overwrites it (`pop_top!`). -/
+def keccakRule (s : IState) : Outcome :=
+  match s.stack.reverse with
+  | off :: len :: rest =>
+    let s1 := { adv s with stack := (len :: rest).reverse }
+    if U64 ≤ len then .halt .InvalidOperandOOG [] s1
+    else needGasO s1 (Spec.GasCalc.keccak256Cost len) fun s2 =>
+      if len = 0 then .next { s2 with stack := (KECCAK_EMPTY :: rest).reverse }
+      else if U64 ≤ off then .halt .InvalidOperandOOG [] s2
+      else memAccessO s2 off len fun s3 =>
+        .host (.keccak (load (memOf s3) off len)) fun r => .next { s3 with stack := (r.word :: rest).reverse }
+  | _ => .halt .StackUnderflow [] (adv s)
+
+/-- the topics are popped after gas and memory are paid for; the log is emitted for the executing account -/
+def logEmit (n : Nat) (s : IState) (rest data : List Nat) : Outcome :=
+  if rest.length < n then .halt .StackUnderflow [] s
+  else .host (.log s.target (rest.take n) data) fun _ => .next { s with stack := (rest.drop n).reverse }
+
+/-- LOGn, `0 ≤ n ≤ 4`: δ = n + 2, α = 0, `G_log + G_logdata · len + n · G_logtopic` + expansion; forbidden in a
+static context (checked first) -/
+def logRule (n : Nat) (s : IState) : Outcome :=
+  if s.isStatic then .halt .StateChangeDuringStaticCall [] (adv s)
+  else match s.stack.reverse with
+    | off :: len :: rest =>
+      let s1 := { adv s with stack := rest.reverse }
+      if U64 ≤ len then .halt .InvalidOperandOOG [] s1
+      else needGasO s1 (Spec.GasCalc.logCost n len) fun s2 =>
+        if len = 0 then logEmit n s2 rest []
+        else if U64 ≤ off then .halt .InvalidOperandOOG [] s2
+        else memAccessO s2 off len fun s3 => logEmit n s3 rest (load (memOf s3) off len)
+    | _ => .halt .StackUnderflow [] (adv s)
+
 end Revm.Spec.EvmRules2
